@@ -458,6 +458,13 @@ pub(crate) struct ConnectSpec {
 }
 
 pub(crate) async fn connect(spec: ConnectSpec) -> io::Result<crate::net::TcpStream> {
+    // an AF_INET6 socket connecting to ::ffff:a.b.c.d talks IPv4 to a.b.c.d (Linux, not V6ONLY)
+    let mut spec = spec;
+    if let SocketAddr::V6(a) = spec.dst {
+        if let Some(v4) = a.ip().to_ipv4_mapped() {
+            spec.dst = SocketAddr::new(IpAddr::V4(v4), a.port());
+        }
+    }
     let orig = spec.dst;
     let dst = spec.divert.unwrap_or(spec.dst);
     let start = {
